@@ -315,6 +315,26 @@ type shF0 struct {
 	End string `@";"`
 }
 
+// a tag without any token (blank, or only a comment) between grammar fields: the fields after it still belong to the grammar
+type shBlankGood struct {
+	A string `@Ident`
+	B string ` `
+	C string `// nothing here`
+	D string `@Int`
+	E string `parser:" "`
+	F string `@String`
+}
+type shBlankBad struct {
+	A string `@Ident`
+	B string ` `
+	C string `@NoSuchToken`
+}
+type shBlankUnclosed struct {
+	A string `@Ident`
+	B string `/* c */`
+	C string `( @Int`
+}
+
 // shape-run: Build on struct shapes; prints "name\toutcome".
 func shapeRun(args []string) error {
 	run := func(name string, f func() error) {
@@ -397,6 +417,19 @@ func shapeRun(args []string) error {
 		}
 		return nil
 	})
+	run("blank-tags-then-fields", func() error {
+		p, err := participle.Build[shBlankGood]()
+		if err != nil {
+			return err
+		}
+		v, err := p.ParseString("", `a 1 "s"`)
+		if err != nil || v.A != "a" || v.D != "1" || v.F != `"s"` || v.B != "" || v.C != "" || v.E != "" {
+			return fmt.Errorf("fields after a token-free tag are not part of the grammar: %+v %v", v, err)
+		}
+		return nil
+	})
+	run("blank-tag-then-unknown-token", func() error { _, err := participle.Build[shBlankBad](); return err })
+	run("blank-tag-then-unclosed-group", func() error { _, err := participle.Build[shBlankUnclosed](); return err })
 	run("complex", func() error { _, err := participle.Build[shComplex](); return err })
 	run("uintptr", func() error { _, err := participle.Build[shUintptr](); return err })
 	return nil
